@@ -209,6 +209,7 @@ pub(crate) fn r2_specificity_add() {
 
 #[cfg_attr(kani, kani::proof)]
 #[cfg_attr(kani, kani::unwind(26))]
+#[cfg_attr(kani, kani::stub(unicode_width::tables::str_width, crate::verif_common::stub_str_width_ascii))]
 pub(crate) fn r3_ol_prefix_total() {
     let start: i64 = kani::any();
     let items: usize = kani::any();
@@ -224,6 +225,7 @@ pub(crate) fn r3_ol_prefix_total() {
 
 #[cfg_attr(kani, kani::proof)]
 #[cfg_attr(kani, kani::unwind(26))]
+#[cfg_attr(kani, kani::stub(unicode_width::tables::str_width, crate::verif_common::stub_str_width_ascii))]
 pub(crate) fn r4_ol_prefix_is_max() {
     let start: i64 = kani::any();
     let items: usize = kani::any();
@@ -757,12 +759,38 @@ pub(crate) fn m_prefix_width() {
     }
 }
 
+/// Ordered-list markers of a custom decorator are measured in columns too ("1） " is 5 bytes, 3 characters, 4 columns).
+pub(crate) fn m_ol_prefix_width() {
+    let suffix: u8 = kani::any();
+    let dec = KDec { quote: 0, ul: 0, header: 0, ol_suffix: suffix };
+    let html: &[u8] = b"<ol><li>alpha beta gamma delta</li><li>x</li></ol><ol start=\"9\"><li>one two three four</li><li>five six seven eight nine</li></ol>";
+    for width in [6usize, 8, 11, 20] {
+        match crate::config::with_decorator(dec.clone()).string_from_read(html, width) {
+            Ok(s) => {
+                for line in s.lines() {
+                    assert!(UnicodeWidthStr::width(line) <= width, "line {:?} wider than {}", line, width);
+                }
+            }
+            Err(Error::TooNarrow) => {}
+            Err(_) => panic!("unexpected error"),
+        }
+    }
+}
+
 /// An ordered list through the public API: numbers are consecutive from `start`, markers are padded
 /// to the widest marker of the list, content starts right after the marker column.
 pub(crate) fn m_ol_numbering() {
     let start: i64 = kani::any();
     let n: usize = kani::any();
-    kani::assume(n >= 1 && n <= 64);
+    kani::assume(n <= 64);
+    if n == 0 {
+        // a list that keeps no item (stray content only) still goes through the numbering arithmetic
+        for body in [" ", "stray text", "<p>para</p>"] {
+            let html = format!("<ol start=\"{}\">{}</ol>", start, body);
+            let _ = crate::config::plain().string_from_read(html.as_bytes(), 60);
+        }
+        return;
+    }
     let mut html = format!("<ol start=\"{}\">", start);
     for _ in 0..n {
         html.push_str("<li>x</li>");
@@ -1017,8 +1045,24 @@ pub(crate) fn m_columns() {
     }
 }
 
+/// A parsed DOM can be turned into a render tree and rendered any number of times with the same result.
+pub(crate) fn m_dom_reuse() {
+    let _which: u8 = kani::any();
+    let html: &[u8] = b"<h1>Title</h1><p>Some paragraph text that wraps at narrow widths.</p><!-- note --><ul><li>first item</li><li>second item</li></ul><table><tr><td>alpha</td><td>beta</td></tr></table>";
+    let cfg = crate::config::plain();
+    let dom = cfg.parse_html(html).unwrap();
+    for &w in &[40usize, 12, 40, 80] {
+        let expected = crate::config::plain().string_from_read(html, w);
+        let tree = cfg.dom_to_render_tree(&dom).unwrap();
+        let got = cfg.render_to_string(tree.clone(), w);
+        assert!(got == expected, "second use of the parsed document differs at width {}: {:?} vs {:?}", w, got, expected);
+        let again = cfg.render_to_string(tree, w);
+        assert!(again == expected, "re-rendering the tree differs at width {}", w);
+    }
+}
+
 crate::verif_common::registry! {
-    m_columns, m_prefix_blank_lines, m_shallow_empty, m_link_footnotes, m_strike_affix, m_frag_nested, m_dom_children, m_cell_unwind, m_routes_width, m_insert_child, m_ol_numbering, m_prefix_width, m_into_cells, m_table_col_width, m_table_alloc,
+    m_ol_prefix_width, m_dom_reuse, m_columns, m_prefix_blank_lines, m_shallow_empty, m_link_footnotes, m_strike_affix, m_frag_nested, m_dom_children, m_cell_unwind, m_routes_width, m_insert_child, m_ol_numbering, m_prefix_width, m_into_cells, m_table_col_width, m_table_alloc,
     r1_cascade_pairs, r1_cascade_triples, r2_specificity_order, r2_specificity_add,
     r3_ol_prefix_total, r4_ol_prefix_is_max,
     r9_tree_map_reduce_order, r12_config_plumbing, r12_width_zero,
